@@ -46,7 +46,8 @@ ASSUMPTIONS = [
     'denied; wms.map / wms.featureinfo are asked about the resolved (non-group) layers; only valid polygon geometries',
     '"the geometry" = the returned geometry with straight edges in its own SRS (true curve after reprojection); '
     'geometries whose vertex-wise reprojection deviates >= 0.2 px from it (bbox lists in another SRS on large '
-    'frames) are excluded and counted',
+    'frames) are excluded and counted; for the others the measured deviation (< 0.2 px) is added to every pixel band, '
+    'because the mask drawn by MapProxy (integer-snapped polygon, touched pixels) already spills up to 0.95 px on its own',
     'pixel classes (shapely distance of the pixel centre, pixel units): "outside" = more than 1.01 px outside, "well '
     'inside" = more than 2 px inside (MapProxy masks every pixel touched by the boundary shrunk by 0.1 px with mitred '
     'joins: up to 0.5 + 0.71 px at sharp spikes of holes - over-clipping, never a leak); feature info: 1.01 px both '
@@ -82,6 +83,7 @@ DEV_LIMIT = 0.2
 
 F_GLOBAL_IGNORED = 'C10/tile/global-limit-ignored-when-layer-limited'
 F_ISLAND = 'C10/mask/island-in-hole-masked'
+F_LAYER_SRS = 'C10/tile/limits-intersected-in-layer-srs'
 
 _V = (20, 120, 235)
 PALETTE = [c for c in itertools.product(_V, _V, _V)]
@@ -511,6 +513,10 @@ class Region(object):
         centres X, Y"""
         shapely = _shp()
         band_in = band if band_in is None else band_in
+        # MapProxy clips with the vertex-wise reprojected geometry; its (bounded, < 0.2 px) distance from the true curve
+        # comes on top of the one pixel that the mask itself may spill (measured: up to 0.95 px)
+        band += self.dev
+        band_in += self.dev
         key = (band, band_in, X.shape)
         if key not in self._m:
             inner = self.geom.buffer(-band_in, 16)
@@ -531,7 +537,7 @@ class Region(object):
         shapely = _shp()
         p = shapely.geometry.Point(px, py)
         d = p.distance(self.geom.boundary) if not self.geom.is_empty else 1e9
-        if d <= band:
+        if d <= band + self.dev:
             return 0
         return 1 if self.geom.contains(p) else -1
 
@@ -742,6 +748,18 @@ def auth_specs(draw, model, relevant, feature, island_ok=True, allow_both=True, 
     return spec
 
 
+def _exclude_layer_srs(req, name, frame_srs, open_sigs):
+    """open finding C10/tile/limits-intersected-in-layer-srs: no request-wide limit next to a layer limit that is given
+    in another SRS than the tile SRS (remembered, counted in stats.excluded)"""
+    auth = req['auth']
+    if F_LAYER_SRS not in open_sigs or auth['mode'] != 'partial' or not auth.get('global'):
+        return
+    lim = auth['layers'].get(name, {}).get('limit')
+    if lim and lim['srs'] != 'same' and not same_srs(lim['srs'], frame_srs):
+        auth['global'] = None
+        auth['suppressed'] = 'tile layer limited_to in a foreign SRS + request-wide limited_to'
+
+
 def near_specs():
     """where to click: None = anywhere (i, j); else at fraction t along the boundary of the first limit geometry that
     applies, moved by `off` pixels in direction `ang` (0.3-6 px: inside the band, just beyond it, clearly beyond)"""
@@ -829,12 +847,14 @@ def requests_(draw, model, open_sigs):
                 req['origin_param'] = draw(st.sampled_from([None, None, 'nw', 'sw']))
             req['spec'] = draw(st.booleans())
             req['auth'] = draw(auth_specs(model, {name}, 'tile', island_ok, allow_both, explicit=[name]))
+            _exclude_layer_srs(req, name, GRIDS[grid]['srs'], open_sigs)
         else:
             req['rest'] = draw(st.booleans())
             req['i'] = draw(st.integers(0, 255))
             req['j'] = draw(st.integers(0, 255))
             req['near'] = draw(near_specs())
             req['auth'] = draw(auth_specs(model, {name}, 'featureinfo', island_ok, allow_both, explicit=[name]))
+            _exclude_layer_srs(req, name, GRIDS[grid]['srs'], open_sigs)
     return req
 
 
@@ -1442,9 +1462,12 @@ class Harness(object):
         if v is not None and both and F_GLOBAL_IGNORED.split('/', 1)[1] not in v.signature:
             # refine: does the verdict disappear when only the layer limit counts?
             v2, _ = judge_info(name, uid, regions_for(name, both=False), 'wmts.featureinfo', complete=not mirrored)
-            if v2 is None:
+            if v2 is None and same_srs(concs[name]['srs'], frame.srs):
                 v = core.Violation(F_GLOBAL_IGNORED, v.message + ' [the global limited_to is ignored because the layer '
                                    'has its own limited_to]', case)
+            elif v2 is None:
+                v = core.Violation(F_LAYER_SRS, v.message + ' [the verdict disappears without the request-wide limited_to; the '
+                                   'layer limited_to is given in %s]' % concs[name]['srs'], case)
         return done(v, nt)
 
     def click_position(self, req, frame, default):
@@ -1566,8 +1589,13 @@ class Harness(object):
             if both and layer_region is not None:
                 li, lo = layer_region['region'].masks(X, Y, band, band_in)
                 if not (leak & lo).any():
-                    sig = F_GLOBAL_IGNORED[4:]
-                    extra = ' [all leaked pixels are inside the layer limited_to: the global limited_to is ignored]'
+                    if same_srs(layer_region['srs'], frame.srs):
+                        sig = F_GLOBAL_IGNORED[4:]
+                        extra = ' [all leaked pixels are inside the layer limited_to: the global limited_to is ignored]'
+                    else:
+                        sig = F_LAYER_SRS[4:]
+                        extra = (' [all leaked pixels are inside the layer limited_to, which is given in %s: the request-wide '
+                                 'limited_to is ignored or displaced by intersecting in that SRS]' % layer_region['srs'])
             return V(sig, 'upstream layer %s is visible at pixel (%d, %d) of %dx%d, more than %g px outside the geometry '
                      'it is limited to (%d such pixels)%s' % (u, px, py, w, h, band, int(leak.sum()), extra), case), nontrivial
         sig = svc + '/inside-limit-lost'
